@@ -14,21 +14,21 @@ def HChild.isComment : HChild → Bool
   | .comment => true
   | _ => false
 
-theorem helloAbs_comments (o : UriOracle) (caps : Option (List Capability)) (sid : Option Nat)
+theorem helloAbs_comments (c : RCfg) (o : UriOracle) (caps : Option (List Capability)) (sid : Option Nat)
     (pre rest : List HChild) (h : ∀ c ∈ pre, c.isComment = true) :
-    helloAbs o caps sid (pre ++ rest) = helloAbs o caps sid rest := by
+    helloAbs c o caps sid (pre ++ rest) = helloAbs c o caps sid rest := by
   induction pre with
   | nil => rfl
-  | cons c cs ih =>
-    cases c with
-    | comment => simp only [List.cons_append, helloAbs]; exact ih (fun x hx => h x (by simp [hx]))
+  | cons x cs ih =>
+    cases x with
+    | comment => simp only [List.cons_append, helloAbs]; exact ih (fun y hy => h y (by simp [hy]))
     | caps r l => have := h (.caps r l) (by simp); simp [HChild.isComment] at this
     | sid s i => have := h (.sid s i) (by simp); simp [HChild.isComment] at this
 
 /-- **Refinement** (restated): on every grammar document `Session::new` computes `establishAbs`. -/
 theorem establish_refines (c : RCfg) (adv : Bool) (o : UriOracle) (raw : String) (attrs : List AttrItem)
     (cs : List HChild) (hwf : ∀ x ∈ cs, x.WF) :
-    establish c adv o (helloDoc raw attrs cs) = establishAbs adv o cs :=
+    establish c adv o (helloDoc raw attrs cs) = establishAbs c adv o cs :=
   establish_doc c adv o raw attrs cs hwf
 
 theorem parseUnsigned_lt (b : Nat) (s : String) (n : Nat) (h : parseUnsigned b s = some n) : n < b := by
@@ -69,9 +69,9 @@ theorem establish_iff (c : RCfg) (o : UriOracle) (raw r : String) (attrs : List 
     (pre mid post : List HChild) (ccs : List CapLeaf) (s : String) (i : List Ev)
     (hpre : ∀ x ∈ pre, x.isComment = true) (hmid : ∀ x ∈ mid, x.isComment = true)
     (hpost : ∀ x ∈ post, x.isComment = true)
-    (hc : ∀ x ∈ ccs, Inert "capability" x.inner) (hs : Inert "session-id" i) (ctx : Context) :
+    (hc : ∀ x ∈ ccs, x.WF) (hs : Inert "session-id" i) (ctx : Context) :
     establish c false o (helloDoc raw attrs (pre ++ .caps r ccs :: mid ++ .sid s i :: post)) = .ok ctx
-      ↔ ∃ caps n, capsAbs o [] ccs = .ok caps ∧ parseSessionId s = some n ∧ Capability.base10 ∈ caps
+      ↔ ∃ caps n, capsAbs c o [] ccs = .ok caps ∧ parseSessionId (c.tok s) = some n ∧ Capability.base10 ∈ caps
             ∧ ctx = { sid := n, version := .v10, serverCaps := caps } := by
   have hwf : ∀ x ∈ pre ++ .caps r ccs :: mid ++ .sid s i :: post, x.WF := by
     intro x hx
@@ -84,19 +84,19 @@ theorem establish_iff (c : RCfg) (o : UriOracle) (raw r : String) (attrs : List 
     · cases x <;> simp_all [HChild.WF] <;> exact absurd (hpost _ hx) (by simp [HChild.isComment])
   rw [establish_refines c false o raw attrs _ hwf]
   unfold establishAbs
-  rw [List.append_assoc, helloAbs_comments o none none pre _ hpre]
+  rw [List.append_assoc, helloAbs_comments c o none none pre _ hpre]
   simp only [List.cons_append, helloAbs, Option.isNone_none, if_true]
-  cases hca : capsAbs o [] ccs with
+  cases hca : capsAbs c o [] ccs with
   | error e => simp
   | ok caps =>
     simp only []
-    rw [helloAbs_comments o (some caps) none mid _ hmid]
+    rw [helloAbs_comments c o (some caps) none mid _ hmid]
     simp only [helloAbs, Option.isNone_none, if_true]
-    cases hsi : parseSessionId s with
+    cases hsi : parseSessionId (c.tok s) with
     | none => simp
     | some n =>
       simp only []
-      have := helloAbs_comments o (some caps) (some n) post [] hpost
+      have := helloAbs_comments c o (some caps) (some n) post [] hpost
       rw [List.append_nil] at this
       rw [this]
       simp only [helloAbs, highestCommon, clientAdvertised, Bool.false_eq_true, if_false]
@@ -173,7 +173,7 @@ def exOracle : UriOracle := fun s =>
   else none
 
 def exHello (caps : List String) : List Ev :=
-  helloDoc "hello" [] [.comment, .caps "capabilities" (caps.map fun c => { span := c, inner := [.text c] }), .sid "4" [.text "4"]]
+  helloDoc "hello" [] [.comment, .caps "capabilities" (caps.map fun c => .cap c [.text c]), .sid "4" [.text "4"]]
 
 example : (establish .fixed false exOracle (exHello ["urn:ietf:params:netconf:base:1.0", "urn:ietf:params:netconf:base:1.1"])).toOption
     = some { sid := 4, version := .v10, serverCaps := [.base10, .base11] } := by decide
